@@ -94,6 +94,12 @@ class Ref:
             return self.file_content(self.interned_path(key))
         return self.file_content(t)
 
+    def load_extras(self, extras):
+        """[[stack, flavor, name, version, path, content id]..] as parsed from the extra directories"""
+        self.extras = {}
+        for si, f, n, v, path, cid in extras:
+            self.extras.setdefault((si, f, n, v), {})[path] = cid
+
     def sees(self, si, f):
         return self.loaded is None or f in self.loaded[si]
 
